@@ -47,13 +47,16 @@ Definition ENotUnlocking := 16.
 Definition ENotMatured := 17.
 Definition ESynthExists := 18.
 Definition ESynthNotFound := 19.
+Definition ENotAllowed := 21.
+Definition ESuperfluidExists := 22.
 Definition EOther := 97.
 Definition EPanic := 98.
 
 Record config := mkCfg {
   c_unb : Z;          (* staking UnbondingTime (ns) *)
   c_rf : Z;           (* superfluid MinimumRiskFactor (Dec raw) *)
-  c_sf : list Z }.    (* denoms registered as superfluid assets *)
+  c_sf : list Z;      (* denoms registered as superfluid assets *)
+  c_force : list Z }. (* owners on lockup's ForceUnlockAllowedAddresses list *)
 
 Record lock := mkLock {
   l_owner : Z; l_denom : Z; l_amt : Z; l_dur : Z;
@@ -461,6 +464,48 @@ Definition withdraw_matured (st : state) : state :=
                           | None => None
                           end).
 
+(* lockup BeginUnlock(lockID, coins): refuses locks that carry a synthetic lock *)
+Definition begin_unlock (st : state) (id : Z) (amt : option Z) : result (state * Z) :=
+  match s_locks st id with
+  | None => Err ELockNotFound
+  | Some l =>
+    if negb (match s_synths st id with [] => true | _ => false end) then Err EHasSynth else  (* HasAnySyntheticLockups *)
+    begin_unlock_core st id l amt
+  end.
+
+(* lockup BeginUnlockAllNotUnlockings(owner): BeginUnlock(id, nil) for every not-unlocking lock of the owner; the first error
+   aborts (ids in ascending order; the store iterates by duration, which only matters for which error is reported) *)
+Fixpoint begin_unlock_all (st : state) (owner : Z) (ids : list Z) : result state :=
+  match ids with
+  | [] => Ok st
+  | id :: r =>
+    match s_locks st id with
+    | Some l =>
+      if (l_owner l =? owner) && (l_end l =? 0) then
+        do x <- begin_unlock st id None; begin_unlock_all (fst x) owner r
+      else begin_unlock_all st owner r
+    | None => begin_unlock_all st owner r
+    end
+  end.
+
+(* lockup MsgForceUnlock (whole lock): only for whitelisted owners, refused when a synthetic lock exists; otherwise the lock
+   is released at once *)
+Definition force_unlock (cfg : config) (st : state) (sender id : Z) : result state :=
+  match s_locks st id with
+  | None => Err ELockNotFound
+  | Some l =>
+    if negb (l_owner l =? sender) then Err ENotOwner else
+    if negb (existsb (Z.eqb sender) (c_force cfg)) then Err ENotAllowed else
+    do found <- synth_by_lock st id;
+    match found with
+    | Some _ => Err ESuperfluidExists
+    | None =>
+      (* PartialForceUnlock -> ForceUnlock: BeginUnlock if not yet unlocking, then unlockMaturedLockInternalLogic *)
+      do st1 <- (if l_end l =? 0 then do x <- begin_unlock st id None; Ok (fst x) else Ok st);
+      Ok (del_lock st1 id)
+    end
+  end.
+
 (* ---- operations ---- *)
 Inductive op :=
 | OLock (owner denom amt dur : Z)                 (* lockup CreateLock *)
@@ -470,6 +515,9 @@ Inductive op :=
 | OUnbondLock (sender id : Z)                     (* MsgSuperfluidUnbondLock *)
 | OUndelegateAndUnbond (sender id amt : Z)        (* MsgSuperfluidUndelegateAndUnbondLock *)
 | OBeginUnlock (sender id : Z)                    (* lockup MsgBeginUnlocking (whole lock) *)
+| OBeginUnlockPartial (sender id amt : Z)         (* lockup MsgBeginUnlocking with coins: part of a lock *)
+| OBeginUnlockAll (owner : Z)                     (* lockup MsgBeginUnlockingAll *)
+| OForceUnlock (sender id : Z)                    (* lockup MsgForceUnlock (whole lock) *)
 | OWithdraw (id : Z)                              (* lockup UnlockMaturedLock *)
 | OAdvance (dt : Z)                               (* next block, dt later *)
 | OCleanup                                        (* lockup EndBlocker: DeleteAllMaturedSyntheticLocks; WithdrawMaturedLocks *)
@@ -492,9 +540,18 @@ Definition step (cfg : config) (st : state) (o : op) : result (state * Z) :=
       | None => Err ELockNotFound
       | Some l =>
         if negb (l_owner l =? sender) then Err ENotOwner else
-        if negb (match s_synths st id with [] => true | _ => false end) then Err EHasSynth else  (* HasAnySyntheticLockups *)
-        do r <- begin_unlock_core st id l None; Ok (fst r, 0)
+        do r <- begin_unlock st id None; Ok (fst r, 0)
       end
+  | OBeginUnlockPartial sender id amt =>
+      match s_locks st id with
+      | None => Err ELockNotFound
+      | Some l =>
+        if negb (l_owner l =? sender) then Err ENotOwner else
+        if amt <=? 0 then Err EPanic else
+        begin_unlock st id (Some amt)
+      end
+  | OBeginUnlockAll owner => do st' <- begin_unlock_all st owner (ids_upto (s_last st)); Ok (st', 0)
+  | OForceUnlock sender id => do st' <- force_unlock cfg st sender id; Ok (st', 0)
   | OWithdraw id => do st' <- unlock_matured_lock st id; Ok (st', 0)
   | OAdvance dt => if dt <? 0 then Err EPanic else Ok (set_now st (s_now st + dt), 0)
   | OCleanup => do st1 <- delete_matured_synths st (ids_upto (s_last st)); Ok (withdraw_matured st1, 0)
